@@ -21,6 +21,28 @@ NOTES = ('All checks run the real cardutil code from /repo\'s working tree (PYTH
 _PENDING = 'check not built yet in this session (planned: DESIGN.md section 4); not claimed until it exists'
 
 CHECKS = [
+    {'id': 'C04', 'engine': 'E1-bfs', 'level': 'model_checking', 'design_ref': 'DESIGN.md 4/C04',
+     'technique': 'explicit-state BFS over the real Block1014 object: all 1013 abstract states x every write size, '
+                  'finalised output compared with a reference blocker',
+     'text': 'All reachable abstract states of the streaming blocker (payload residue mod 1012, trailer '
+             'pending/written, every instance attribute) are enumerated by BFS on the real object; from each state '
+             'every write size 0..3040 (thorough) or 0..1016 plus boundary-relative sizes (quick) is executed from '
+             'two different representative histories and the finalised file is compared byte-for-byte with the '
+             'reference blocking of the bytes written. Because every (state, size) pair is executed, every write '
+             'history with writes up to that size is covered, not just a depth.',
+     'note': 'Trusts blk_ref (15 lines). State abstraction is checked by expanding every state from two histories; a '
+             'mismatch withdraws the exhaustive claim. Writes above 10000 bytes are not explored.'},
+    {'id': 'C05', 'engine': 'E1-bfs', 'level': 'model_checking', 'design_ref': 'DESIGN.md 4/C05',
+     'technique': 'explicit-state BFS over the real Unblock1014 object (all read histories) plus exhaustive '
+                  'truncation / trailer-corruption enumeration for unblock_1014',
+     'text': 'BFS over (blocks in file, file position, buffered bytes, attributes, bytes delivered) for inputs of '
+             '0..3 (quick) / 0..4 (thorough) blocks; from every state every read size 1..2024 (thorough) or a '
+             'boundary-relative menu (quick) and read() with no size are executed on the real object and must return '
+             'the next slice of the payload stream. One-shot unblocker: inverse of block_1014 for every length, every '
+             'truncation length 0..3042 and every value of all six trailer bytes refused. Blocked vs unblocked '
+             'record reading on all pairs of a 27-length boundary alphabet.',
+     'note': 'read(0) excluded (indistinguishable from "no size"). Inputs are whole blocks; read sizes above two '
+             'blocks repeat the same refill loop.'},
     {'id': 'C15', 'engine': 'E2-choice', 'level': 'exploration', 'design_ref': 'DESIGN.md 4/C15',
      'technique': 'bounded exhaustive enumeration of all digit strings (model checking of a pure function over a '
                   'complete finite input space) in normal and -O interpreter modes',
